@@ -106,4 +106,25 @@ reg(
     TRUSTED + "Report equality is skipped (counted) when a stopping comparison is within rounding of its threshold; edges at a 180-degree residual are skipped for quaternion negation.",
 )
 
+reg(
+    "C12",
+    "DESIGN.md section 4 C12",
+    "model-based property testing over generated call histories (Hypothesis): optimize() reports vs a single-step clone + independent reference chi2 + the documented stopping rule; fresh-graph differential for hidden state / verbose",
+    "Generated histories of 1..4 optimize() calls (tol in {0} u 1e-12..1e-1, max_iter 1..30, verbose, fix_first_pose) on graphs inside and far outside the convergence "
+    "neighbourhood: every recorded chi2 equals the reference chi2 of the corresponding single-step state, the stop index / converged / num_iterations / "
+    "iteration_results bookkeeping follow the documented rule (threshold-ambiguous decisions accept both outcomes), final_chi2 = calc_chi2(), and each call is "
+    "bit-identical to the same call on a fresh graph rebuilt from the prior state with the opposite verbose flag (no hidden state; printing does not alter results; "
+    "subsumes call splitting).",
+    TRUSTED + "States of the model come from the code's own one-iteration update (its correctness is C03's subject).",
+)
+reg(
+    "C15",
+    "DESIGN.md section 4 C15",
+    "model-based stateful property testing (Hypothesis-generated operation programs of up to 50 steps with an invariant after every step): bitwise state snapshot vs model, repeated-query determinism",
+    "Generated histories over graphs with built-in and numeric-Jacobian custom edges and deliberately shared estimate/information/offset objects: after each of up to 50 "
+    "query / export / pose-operator / copy / optimize steps a bit-pattern snapshot of all poses, estimates, offsets, information matrices, ids, vertex_ids, flags and object "
+    "bindings must equal the model (updated only by optimize: vertex poses, first fixed flag iff asked), and every query issued twice returns bit-identical values.",
+    TRUSTED + "Bitwise comparison; optimize may rebind vertex.pose objects.",
+)
+
 NOT_YET = {}
